@@ -380,11 +380,11 @@ structure AdmitRes where
 deriving Repr
 
 /-- Phase 4: move segments from snd_queue to snd_buf while the window allows -/
-def admitSegs (conv una cwnd : U32) : List Seg → List Seg → U32 → Nat → AdmitRes
+def admitSegs (conv una cwnd now : U32) : List Seg → List Seg → U32 → Nat → AdmitRes
   | [], buf, nxt, c => ⟨[], buf, nxt, c⟩
   | s :: rest, buf, nxt, c =>
     if itimediff nxt (una + cwnd) ≥ 0 then ⟨s :: rest, buf, nxt, c⟩
-    else admitSegs conv una cwnd rest (buf ++ [{ s with conv := conv, cmd := BitVec.ofNat 8 IKCP_CMD_PUSH, sn := nxt }]) (nxt + 1) (c + 1)
+    else admitSegs conv una cwnd now rest (buf ++ [{ s with conv := conv, cmd := BitVec.ofNat 8 IKCP_CMD_PUSH, sn := nxt, resendts := now }]) (nxt + 1) (c + 1)
 
 structure XmitSt where
   f        : Fl
@@ -452,7 +452,7 @@ def flush (k : Kcp) (full : Bool) (now : U32) : FlushRes :=
   -- Phase 4
   let cw0 := if f.k.snd_wnd ≤ f.k.rmt_wnd then f.k.snd_wnd else f.k.rmt_wnd
   let cwnd := if f.k.nocwnd = 0 then (if f.k.cwnd ≤ cw0 then f.k.cwnd else cw0) else cw0
-  let ad := admitSegs f.k.conv f.k.snd_una cwnd f.k.snd_queue f.k.snd_buf f.k.snd_nxt 0
+  let ad := admitSegs f.k.conv f.k.snd_una cwnd now f.k.snd_queue f.k.snd_buf f.k.snd_nxt 0
   let f : Fl := { f with k := { f.k with snd_queue := ad.queue, snd_buf := ad.buf, snd_nxt := ad.nxt } }
   let resent : U32 := if f.k.fastresend.sle 0 then 0xFFFFFFFF#32 else f.k.fastresend
   -- Phase 5
@@ -513,7 +513,7 @@ def inputLoop (regular : Bool) : Nat → Bytes → InLoop → InLoop
     let length := (rd32 data 20).toNat
     let body := data.drop IKCP_OVERHEAD
     if conv ≠ st.k.conv then { st with ret := -1 } else
-    if body.length < length then { st with ret := -2 } else
+    if body.length < length ∨ length > mtuLimit then { st with ret := -2 } else
     if cmd.toNat ≠ IKCP_CMD_PUSH ∧ cmd.toNat ≠ IKCP_CMD_ACK ∧ cmd.toNat ≠ IKCP_CMD_WASK ∧ cmd.toNat ≠ IKCP_CMD_WINS then
       { st with ret := -3 } else
     let k1 := if regular then { st.k with rmt_wnd := wnd.setWidth 32 } else st.k
@@ -612,6 +612,9 @@ def check (k : Kcp) (now : U32) : U32 :=
 /-- `SetMtu(mtu)`; Go `int` argument -/
 def setMtu (k : Kcp) (mtu : Int) : Kcp × Int :=
   if mtu ≤ (IKCP_OVERHEAD : Int) then (k, -1)
+  else if mtu - (IKCP_OVERHEAD : Int) > (mtuLimit : Int) then (k, -1)
+  else if k.snd_queue.any (fun s => decide ((s.data.length : Int) > mtu - (IKCP_OVERHEAD : Int))) then (k, -1)
+  else if k.snd_buf.any (fun s => decide ((s.data.length : Int) > mtu - (IKCP_OVERHEAD : Int))) then (k, -1)
   else
     let m := BitVec.ofInt 32 mtu
     ({ k with mtu := m, mss := m - u32 IKCP_OVERHEAD, bufLen := (mtu.toNat + IKCP_OVERHEAD) * 3 }, 0)
